@@ -196,6 +196,30 @@ def batched (now delay : Nat) : Nat := (now + delay) / sec * sec
 def S.timer (s : S) (deadline : Nat) : S × (Nat × Nat) :=
   ({ s with seq := s.seq + 1 }, (deadline, s.seq))
 
+/-- arm the closing-handshake timer (batched) -/
+def armCloseHs (s : S) : S :=
+  let (s, t) := s.timer (batched s.now s.cfg.closeHsTimeout)
+  { s with tCloseHs := some t }
+
+/-- arm the server-connection-drop timer (plain `call_later`: exact) -/
+def armServerDrop (s : S) : S :=
+  let (s, t) := s.timer (s.now + s.cfg.serverDropTimeout)
+  { s with tServerDrop := some t }
+
+/-- schedule the next automatic ping (batched) -/
+def armPingNext (s : S) : S :=
+  let (s, t) := s.timer (batched s.now s.cfg.pingInterval)
+  { s with tPingNext := some t }
+
+/-- arm the pong timeout (batched) -/
+def armPingTimeout (s : S) : S :=
+  let (s, t) := s.timer (batched s.now s.cfg.pingTimeout)
+  { s with tPingTimeout := some t }
+
+/-- payload of a close frame: optional 2-octet code, then the reason -/
+def closePayload (code : Option Nat) (reason : Option Bytes) : Bytes :=
+  (match code with | some c => beBytes 2 c | none => []) ++ (reason.getD [])
+
 /-! ## sending: sendData / _trigger / _send -/
 
 def queuedWriteDelay : Nat := 8
@@ -284,14 +308,10 @@ def sendCloseFrame (s : S) (code : Option Nat) (reason : Option Bytes) (isReply 
   | .closed => s
   | .connecting => s.emit (.raised .exception)
   | .opened =>
-    let payload := (match code with | some c => beBytes 2 c | none => []) ++ (reason.getD [])
-    let s := sendFrame s 8 payload
+    let s := sendFrame s 8 (closePayload code reason)
     let s := { s with st := .closing, closedByMe := !isReply, localCloseCode := code,
                       closeSent := s.closeSent ++ [(code, reason)] }
-    if s.closedByMe && s.cfg.closeHsTimeout > 0 then
-      let (s, t) := s.timer (batched s.now s.cfg.closeHsTimeout)
-      { s with tCloseHs := some t }
-    else s
+    if s.closedByMe && s.cfg.closeHsTimeout > 0 then armCloseHs s else s
 
 /-! `encode_truncate(text, 123)` on the UTF-8 encoding: cut at the limit, drop an incomplete tail. -/
 
@@ -309,11 +329,13 @@ def encodeTruncate (utf8 : Bytes) (limit : Nat) : Bytes :=
   if utf8.length > limit then dropIncompleteTail (utf8.take limit) else utf8
 
 /-- `sendClose(code, reason)`; `reason` is given as the UTF-8 encoding of the text -/
+def sendCloseCodeBad (code : Option Nat) : Bool :=
+  match code with
+  | some c => c ≠ 1000 && !(3000 ≤ c && c ≤ 4999)
+  | none => false
+
 def sendClose (s : S) (code : Option Nat) (reason : Option Bytes) : S :=
-  let codeBad := match code with
-    | some c => c ≠ 1000 && !(3000 ≤ c && c ≤ 4999)
-    | none => false
-  if codeBad then s.emit (.raised .exception)
+  if sendCloseCodeBad code then s.emit (.raised .exception)
   else if reason.isSome && code.isNone then s.emit (.raised .exception)
   else sendCloseFrame s code (reason.map (encodeTruncate · 123)) false
 
@@ -345,34 +367,31 @@ def closeCodesAllowed : List Nat := [1000, 1001, 1002, 1003, 1007, 1008, 1009, 1
 def closeCodeInvalid (code : Nat) : Bool :=
   code < 1000 || (1000 ≤ code && code ≤ 2999 && !closeCodesAllowed.contains code) || code ≥ 5000
 
-/-- `onCloseFrame(code, reasonRaw)`; returns `true` when processing must stop -/
-def onCloseFrame (s : S) (code : Option Nat) (reasonRaw : Option Bytes) : S × Bool :=
-  let s := { s with remoteCloseCode := none, remoteCloseReason := none }
-  -- close code
-  let (s, stop1) :=
-    match code with
-    | some c =>
-      if closeCodeInvalid c then
-        let (s, stop) := violation s 1002
-        if stop then (s, true) else ({ s with remoteCloseCode := some 1000 }, false)
-      else ({ s with remoteCloseCode := some c }, false)
-    | none => ({ s with remoteCloseCode := none }, false)
-  if stop1 then (s, true) else
-  -- close reason
-  let (s, stop2) :=
-    match reasonRaw with
-    | some r =>
-      if !(utf8Valid r) then violation s 1007
-      else ({ s with remoteCloseReason := some r }, false)
-    | none => (s, false)
-  if stop2 then (s, true) else
+/-- close-code check of `onCloseFrame`; the Bool says "stop processing" -/
+def closeCodeStep (s : S) (code : Option Nat) : S × Bool :=
+  match code with
+  | some c =>
+    if closeCodeInvalid c then
+      let (s, stop) := violation s 1002
+      if stop then (s, true) else ({ s with remoteCloseCode := some 1000 }, false)
+    else ({ s with remoteCloseCode := some c }, false)
+  | none => ({ s with remoteCloseCode := none }, false)
+
+/-- close-reason check of `onCloseFrame` -/
+def closeReasonStep (s : S) (reasonRaw : Option Bytes) : S × Bool :=
+  match reasonRaw with
+  | some r =>
+    if !(utf8Valid r) then violation s 1007
+    else ({ s with remoteCloseReason := some r }, false)
+  | none => (s, false)
+
+/-- the state-dependent part of `onCloseFrame` -/
+def closeStateStep (s : S) : S × Bool :=
   match s.st with
   | .closing =>
     let s := { s with tCloseHs := none, wasClean := true }
     if s.cfg.isServer then (dropConnection s true, false)
-    else if s.cfg.serverDropTimeout > 0 then
-      let (s, t) := s.timer (s.now + s.cfg.serverDropTimeout)
-      ({ s with tServerDrop := some t }, false)
+    else if s.cfg.serverDropTimeout > 0 then (armServerDrop s, false)
     else (s, false)
   | .opened =>
     let s := { s with wasClean := true }
@@ -381,12 +400,19 @@ def onCloseFrame (s : S) (code : Option Nat) (reasonRaw : Option Bytes) : S × B
         sendCloseFrame s s.remoteCloseCode (s.remoteCloseReason.map (encodeTruncate · 123)) true
       else sendCloseFrame s (some 1000) none true
     if s.cfg.isServer then (dropConnection s false, false)
-    else if s.cfg.serverDropTimeout > 0 then
-      let (s, t) := s.timer (s.now + s.cfg.serverDropTimeout)
-      ({ s with tServerDrop := some t }, false)
+    else if s.cfg.serverDropTimeout > 0 then (armServerDrop s, false)
     else (s, false)
   | .closed => ({ s with wasClean := false }, false)
   | .connecting => (s.emit (.raised .exception), true)
+
+/-- `onCloseFrame(code, reasonRaw)`; returns `true` when processing must stop -/
+def onCloseFrame (s : S) (code : Option Nat) (reasonRaw : Option Bytes) : S × Bool :=
+  let s := { s with remoteCloseCode := none, remoteCloseReason := none }
+  let r1 := closeCodeStep s code
+  if r1.2 then (r1.1, true) else
+  let r2 := closeReasonStep r1.1 reasonRaw
+  if r2.2 then (r2.1, true) else
+  closeStateStep r2.1
 
 /-- `_connectionLost` -/
 def connectionLost (s : S) : S :=
@@ -408,18 +434,12 @@ def sendAutoPing (s : S) : S :=
   let s := { s with tPingNext := none, pingSeq := s.pingSeq + 1 }
   let s := { s with pingPending := some (pingPayload s) }
   let s := sendPing s (pingPayload s)
-  if s.cfg.pingTimeout > 0 then
-    let (s, t) := s.timer (batched s.now s.cfg.pingTimeout)
-    { s with tPingTimeout := some t }
-  else s
+  if s.cfg.pingTimeout > 0 then armPingTimeout s else s
 
 /-- `_cancelAutoPingTimeoutCall` -/
 def cancelAutoPingTimeout (s : S) : S :=
   let s := { s with tPingTimeout := none, pingPending := none, tPingNext := none }
-  if s.cfg.pingInterval > 0 then
-    let (s, t) := s.timer (batched s.now s.cfg.pingInterval)
-    { s with tPingNext := some t }
-  else s
+  if s.cfg.pingInterval > 0 then armPingNext s else s
 
 /-! ## receiving -/
 
@@ -486,10 +506,7 @@ def processControlFrame (s : S) (h : Hdr) : S :=
       | some pp =>
         if payload = pp then
           let s := { s with tPingTimeout := none, pingPending := none }
-          if s.cfg.pingInterval > 0 then
-            let (s, t) := s.timer (batched s.now s.cfg.pingInterval)
-            { s with tPingNext := some t }
-          else s
+          if s.cfg.pingInterval > 0 then armPingNext s else s
         else s
       | none => s
     s.emit (.onPong payload)
@@ -535,62 +552,76 @@ def applyViolations (s : S) : List HV → S × Bool
 def headerLen (masked : Bool) (len7 : Nat) : Nat :=
   2 + (if len7 = 126 then 2 else if len7 = 127 then 8 else 0) + (if masked then 4 else 0)
 
+/-- the extended-payload-length rules of `processData` (applied once the whole header is buffered);
+the Bool says "stop processing" -/
+def extLenStep (s : S) (len7 plen : Nat) : S × Bool :=
+  if len7 = 126 then
+    (if plen < 126 then violation s 1002 else (s, false))
+  else if len7 = 127 then
+    let r := if plen > 0x7FFFFFFFFFFFFFFF then violation s 1002 else (s, false)
+    if r.2 then (r.1, true)
+    else if plen < 65536 then violation r.1 1002 else (r.1, false)
+  else (s, false)
+
+def maskOf (masked : Bool) (four : Bytes) : Option Key :=
+  if masked then
+    match four with
+    | [a, b, c, d] => some ⟨a, b, c, d⟩
+    | _ => none
+  else none
+
+/-- `processData()` outside a frame, with at least two octets buffered -/
+def processHeader (s : S) (o0 o1 : UInt8) : S × Bool :=
+  let fin := o0.toNat / 128 = 1
+  let rsv := o0.toNat / 16 % 8
+  let opcode := o0.toNat % 16
+  let masked := o1.toNat / 128 = 1
+  let len7 := o1.toNat % 128
+  let r0 := applyViolations s (headerViolations s.cfg s.insideMessage fin rsv opcode masked len7)
+  if r0.2 then (r0.1, false) else
+  let s := r0.1
+  let hl := headerLen masked len7
+  if s.data.length ≥ hl then
+    let ext := (s.data.drop 2).take (if len7 = 126 then 2 else if len7 = 127 then 8 else 0)
+    let plen := if len7 < 126 then len7 else beNat ext
+    let r1 := extLenStep s len7 plen
+    if r1.2 then (r1.1, false) else
+    let s := r1.1
+    let mask := maskOf masked ((s.data.drop (hl - 4)).take 4)
+    let h : Hdr := { opcode := opcode, fin := fin, rsv := rsv, length := plen, mask := mask }
+    let s := { s with data := s.data.drop hl, cur := some h, ptr := 0,
+                      unmask := masked && plen > 0 && s.cfg.applyMask }
+    let s := onFrameBegin s h
+    (s, plen = 0 || s.data.length > 0)
+  else (s, false)
+
+def unmaskChunk (s : S) (h : Hdr) (chunk : Bytes) : Bytes :=
+  if s.unmask then
+    match h.mask with
+    | some k => (Xor.spec k s.ptr chunk).1
+    | none => chunk
+  else chunk
+
+/-- `processData()` inside a started frame -/
+def processPayload (s : S) (h : Hdr) : S × Bool :=
+  let rest := h.length - s.ptr
+  let chunk := s.data.take rest
+  let payload := unmaskChunk s h chunk
+  let s := { s with data := s.data.drop rest, ptr := s.ptr + chunk.length }
+  let r := onFrameData s h payload
+  if !r.2 then (r.1, false) else
+  let r2 := if r.1.ptr = h.length then onFrameEnd r.1 h else (r.1, true)
+  if !r2.2 then (r2.1, false) else
+  (r2.1, r2.1.data.length > 0)
+
 /-- `processData()`; the Bool is its return value ("call me again") -/
 def processData (s : S) : S × Bool :=
   match s.cur with
   | none =>
     match s.data with
-    | o0 :: o1 :: _ =>
-      let fin := o0.toNat / 128 = 1
-      let rsv := o0.toNat / 16 % 8
-      let opcode := o0.toNat % 16
-      let masked := o1.toNat / 128 = 1
-      let len7 := o1.toNat % 128
-      let (s, stop) := applyViolations s (headerViolations s.cfg s.insideMessage fin rsv opcode masked len7)
-      if stop then (s, false) else
-      let hl := headerLen masked len7
-      if s.data.length ≥ hl then
-        let ext := (s.data.drop 2).take (if len7 = 126 then 2 else if len7 = 127 then 8 else 0)
-        let plen := if len7 < 126 then len7 else beNat ext
-        -- extended length rules
-        let (s, stop) :=
-          if len7 = 126 then
-            (if plen < 126 then violation s 1002 else (s, false))
-          else if len7 = 127 then
-            let (s, stop) := if plen > 0x7FFFFFFFFFFFFFFF then violation s 1002 else (s, false)
-            if stop then (s, true)
-            else if plen < 65536 then violation s 1002 else (s, false)
-          else (s, false)
-        if stop then (s, false) else
-        let mask : Option Key :=
-          if masked then
-            match (s.data.drop (hl - 4)).take 4 with
-            | [a, b, c, d] => some ⟨a, b, c, d⟩
-            | _ => none
-          else none
-        let h : Hdr := { opcode := opcode, fin := fin, rsv := rsv, length := plen, mask := mask }
-        let s := { s with data := s.data.drop hl, cur := some h, ptr := 0,
-                          unmask := masked && plen > 0 && s.cfg.applyMask }
-        let s := onFrameBegin s h
-        (s, plen = 0 || s.data.length > 0)
-      else (s, false)
+    | o0 :: o1 :: _ => processHeader s o0 o1
     | _ => (s, false)
-  | some h =>
-    let rest := h.length - s.ptr
-    let chunk := s.data.take rest
-    let s := { s with data := s.data.drop rest }
-    let payload :=
-      if s.unmask then
-        match h.mask with
-        | some k => (Xor.spec k s.ptr chunk).1
-        | none => chunk
-      else chunk
-    let s := { s with ptr := s.ptr + chunk.length }
-    let (s, go) := onFrameData s h payload
-    if !go then (s, false) else
-    let (s, go) := if s.ptr = h.length then onFrameEnd s h else (s, true)
-    if !go then (s, false) else
-    (s, s.data.length > 0)
+  | some h => processPayload s h
 
 /-- `while self.processData() and self.state != STATE_CLOSED: pass` -/
 def drain : Nat → S → S
@@ -774,10 +805,7 @@ def advance (s : S) (dt : Nat) : S := advanceTo (s.now + dt) (dt / queuedWriteDe
 
 def start (cfg : Cfg) : S :=
   let s : S := { cfg := cfg }
-  if cfg.pingInterval > 0 then
-    let (s, t) := s.timer (batched s.now cfg.pingInterval)
-    { s with tPingNext := some t }
-  else s
+  if cfg.pingInterval > 0 then armPingNext s else s
 
 /-- a connection still in the opening handshake (only the open-handshake timer is modelled there) -/
 def startConnecting (cfg : Cfg) : S :=
@@ -791,10 +819,7 @@ def startConnecting (cfg : Cfg) : S :=
 def handshakeDone (s : S) : S :=
   if s.st ≠ .connecting then s else
   let s := { s with st := .opened, tOpenHs := none }
-  if s.cfg.pingInterval > 0 then
-    let (s, t) := s.timer (batched s.now s.cfg.pingInterval)
-    { s with tPingNext := some t }
-  else s
+  if s.cfg.pingInterval > 0 then armPingNext s else s
 
 /-! ## scripted operations -/
 
